@@ -46,14 +46,14 @@ profile("C10", tx=dict(edit=3, query=1, derive_edit=8, relabel=1, react=1, persi
 profile("C11", tx=dict(edit=3, query=2, relabel=8, twin=1, derive_edit=1, algebra=1, large=0.06, build=1))
 profile("C01", tx=dict(edit=4, query=1, twin=8, relabel=1, derive_edit=1, large=0.08, hubs=0.2, copies=1, build=2), max_atoms=(1, 12))
 profile("C03", tx=dict(edit=4, query=2, twin=8, pair=1, derive_edit=1, algebra=1, large=0.08, hubs=0.2, copies=0.5, build=2), max_atoms=(1, 12))
-profile("C02", tx=dict(edit=4, pair=5, mutant=6, derive_edit=2, wlpair=5, treepair=4, exchange=1, build=2), small=True, max_atoms=(2, 8))
+profile("C02", tx=dict(edit=4, pair=5, mutant=6, derive_edit=2, wlpair=5, treepair=4, exchange=1, large=0.3, build=2), small=True, max_atoms=(2, 8))
 profile("C05", tx=dict(edit=3, enum=8, symnum=2, derive_edit=2, wlpair=4, copies=1, build=2), small=True, max_atoms=(2, 13),
         callers=(2, 4))
 profile("C06", tx=dict(edit=3, enant=6, derive_edit=2, build=2), small=True, max_atoms=(2, 7),
         classes=("SMG", "SCRG"))
 profile("C08", tx=dict(edit=2, react=8, derive_edit=2, build=1), classes=("MG", "SMG", "CRG", "SCRG"), max_atoms=(3, 8))
 profile("C15", tx=dict(edit=5, persist=8, query=1, relabel=1, derive_edit=1, large=0.1, build=2))
-profile("C16", tx=dict(edit=3, pair=4, mutant=4, flip=4, isomers=4, react=2, hubs=0.5, known=0.15, exchange=2, build=3), small=True, max_atoms=(2, 8),
+profile("C16", tx=dict(edit=3, pair=4, mutant=4, flip=4, isomers=4, react=2, hubs=0.5, known=0.15, exchange=2, large=0.3, build=3), small=True, max_atoms=(2, 8),
         callers=(2, 3))
 profile("C17", tx=dict(edit=4, algebra=8, query=1, large=0.08, dense=0.5, build=2), max_atoms=(3, 14))
 
@@ -769,6 +769,8 @@ class Gen:
                 yield dict(k="drop", s=s)
         s = self.slot_id()
         n = rng.choice((18, 24, 33, 40, 129, 130, 140, 160, 200, 257) if self.tier == "thorough" else (18, 24, 33, 129, 130, 136, 150, 180))
+        if PROFILES[self.cfg["profile"]]["small"]:
+            n = rng.choice((14, 18, 24, 33))      # mid-size only where brute-force probes share the slots
         kind = rng.choice(self.cfg["classes"])
         yield dict(k="bulk", dst=s, cls=kind, n=n, seed=rng.randrange(2 ** 31),
                    base=rng.choice((0, -50, 1000)), stride=rng.choice((1, 1, 3)), els=sorted(set(self.cfg["elements"]))[:3],
@@ -812,6 +814,8 @@ class Gen:
                         yield dict(k="remove_atom", s=s, a=rr[1])
             elif r < 0.5:
                 yield dict(k="q", s=s, q=rng.choice(("connectivity_matrix", "connected_components", "len", "hash", "eq_self")))
+                if n <= 40:
+                    yield dict(k="probe_mutant", s=s, seed=rng.randrange(2 ** 31), grouped=True)
             elif r < 0.6:
                 yield dict(k="probe_twin", s=s, seed=rng.randrange(2 ** 31), route=rng.choice(("fresh", "relabel")))
             elif r < 0.7 and len(self.w.slots) + 3 <= self.w.max_slots and self.cfg["tx"].get("persist", 0) > 0:
@@ -1164,12 +1168,29 @@ class Gen:
             return self.rand_mutator(s)
         return rng.choice(c)
 
+    def bad_derive(self, c):
+        """an ill-formed derivation request over some live graphs"""
+        rng = self.rng
+        srcs = rng.sample(c, min(len(c), rng.randint(1, 2)))
+        kinds = [self.w.slots[x].model.kind for x in srcs]
+        what = rng.choice(("compose", "compose", "compose", "ctor", "subgraph", "from_graphs"))
+        cls = rng.choice(kinds + list(self.cfg["classes"]))
+        if what == "from_graphs":
+            cls = rng.choice(("CRG", "SCRG"))
+        return dict(k="bad_derive", what=what, srcs=srcs, cls=cls, junk=rng.choice(("none", "none", "int", "str")),
+                    pos=rng.randrange(3), unknown=10 ** 9 + rng.randrange(5))
+
     def tx_derive_edit(self):
         rng = self.rng
         c = self.graphs()
         if not c or not self.room():
             yield from self.tx_build()
             return
+        if rng.random() < 0.08:
+            yield self.bad_derive(c)
+            c = self.graphs()
+            if not c or not self.room():
+                return
         src = rng.choice(c)
         ops = self.derivation(src)
         for op in ops:
@@ -1770,7 +1791,7 @@ class Gen:
             yield from self.tx_build()
             return
         s = rng.choice(c)
-        yield dict(k="probe_mutant", s=s, seed=rng.randrange(2 ** 31), prelude=rng.random() < 0.3)
+        yield dict(k="probe_mutant", s=s, seed=rng.randrange(2 ** 31), prelude=rng.random() < 0.3, grouped=rng.random() < 0.3)
         # single-feature edit on a copy, then compare the live pair
         if self.room() and rng.random() < 0.5:
             d = self.slot_id()
@@ -1853,7 +1874,7 @@ class Gen:
             yield dict(k="gen_next", g=e, n=step, tamper=rng.choice((None, None, "clear", "mutate")))
             n += step
             if cancel_at is not None and n >= cancel_at:
-                yield dict(k="gen_close", g=e, how=rng.choice(("close", "throw", "drop")))
+                yield dict(k="gen_close", g=e, how=rng.choice(("close", "throw", "drop", "labels")))
                 return
         if e in self.w.slots:
             yield dict(k="gen_drain", g=e, tamper=None)
@@ -2216,6 +2237,11 @@ class Gen:
         if not c or not self.room():
             yield from self.tx_build()
             return
+        if rng.random() < 0.08:
+            yield self.bad_derive(c)
+            c = self.graphs()
+            if not c or not self.room():
+                return
         s = rng.choice(c)
         m = self.w.slots[s].model
         r = rng.random()
@@ -2441,7 +2467,7 @@ class Gen:
                 break
             yield dict(k="gen_next", g=e, n=1, tamper=rng.choice((None, None, "edit")))
             if cancel and i == 0:
-                yield dict(k="gen_close", g=e, how=rng.choice(("close", "throw", "drop")))
+                yield dict(k="gen_close", g=e, how=rng.choice(("close", "throw", "drop", "labels")))
                 break
         if e in self.w.slots:
             yield dict(k="gen_close", g=e, how="close")
